@@ -264,7 +264,110 @@ pub fn run_stale_case(c: &SCase) -> Result<bool, (String, String)> {
     Ok(priced)
 }
 
-pub const RULE: &str = "adapter level: the program's own price adapter (try_from_bank_with_max_age + get_price_of_type) for Kamino/Solend x Pyth/Switchboard banks over extreme reserve states: available / borrowed in {0, units, ..., 2^62}, fees up to 100% of liquidity, supplies from 1 to 2^62, decimals 0-19 and 23 (states whose scaled collateral supply is below 2^-38 are skipped: that is the regime of the recorded double-flooring finding): returned price <= price x exact (liquidity/collateral) x (1 + 2^-9) + 4 ulp x price + 2 feed units, never negative; failing closed is always accepted. Staleness stream: Kamino / Solend / Drift x Pyth / Switchboard banks whose venue account was last refreshed 0, 1, 2-100 or up to 10^7 slots (seconds for Drift) before the clock, with and without outstanding borrows / deposits, oracle fresh: any gap >= 1 => the adapter must not return a price. Non-trivial = the exact rate is zero or the liquidity vanishes after decimal scaling while collateral is outstanding.";
+// ------------------------------------------------------------------------------------------------
+// legs stream: BOTH price legs of the adjusted price (real-time from the spot price, time-weighted from the EMA), for all
+// six venue oracle setups, on ordinary reserves / markets: each leg equals its own feed price x exact rate within a
+// relative 10^-6 + two feed units ("never exceeds price x exact rate, is monotone in both": a leg computed from the other
+// leg's price exceeds the bound whenever spot and EMA differ, and does not follow its own input)
+// ------------------------------------------------------------------------------------------------
+#[derive(Clone, Debug, Serialize, Deserialize)]
+pub struct LCase {
+    /// 0 KaminoPyth, 1 KaminoSwb, 2 SolendPyth, 3 SolendSwb, 4 DriftPyth, 5 DriftSwb
+    pub kind: u8,
+    pub deposits: u64,
+    /// exact venue rate in per-mille (500 = a reserve below par)
+    pub rate_pm: u32,
+    pub price_mant: i64,
+    /// EMA = price x ema_pm / 1000 (Pyth only)
+    pub ema_pm: u16,
+    pub decimals: u8,
+}
+
+pub fn legs_strategy() -> impl Strategy<Value = LCase> {
+    (0u8..6, 1_000_000u64..1_000_000_000_000, prop_oneof![1 => 300u32..1000, 1 => Just(1000u32), 3 => 1000u32..3000], 1_000i64..1_000_000_000, prop_oneof![1 => Just(1000u16), 2 => 500u16..1000, 2 => 1001u16..2000], prop_oneof![3 => Just(6u8), 2 => Just(9u8), 1 => 0u8..=9])
+        .prop_map(|(kind, deposits, rate_pm, price_mant, ema_pm, decimals)| LCase { kind, deposits, rate_pm, price_mant, ema_pm, decimals })
+}
+
+pub fn run_legs_case(c: &LCase) -> Result<bool, (String, String)> {
+    crate::svm::init();
+    let (slot, ts) = (1_000_000u64, 1_700_000_000i64);
+    crate::svm::set_thread_clock(slot, ts);
+    let mut clock = Clock::default();
+    clock.slot = slot;
+    clock.unix_timestamp = ts;
+    let venue = c.kind / 2;
+    let pyth = c.kind % 2 == 0;
+    let expo = -8;
+    let ema_mant = if pyth { ((c.price_mant as i128 * c.ema_pm as i128) / 1000).max(1) as i64 } else { c.price_mant };
+    let oracle = if pyth { fab::pyth_price_update(c.price_mant, 0, ema_mant, 0, expo, ts, None, [7u8; 32]) } else { fab::switchboard_pull_feed(c.price_mant as i128 * 10_000_000_000, 0, ts) };
+    // venue account, fresh; exact rate from the numbers written
+    let supply = (c.deposits as u128 * 1000 / c.rate_pm as u128).max(1) as u64;
+    let (reserve, rate): (fab::Fab, Q) = match venue {
+        0 => (fab::kamino_reserve(slot, c.deposits, 0, 0, 0, 0, supply, c.decimals as u64), q_int(c.deposits) / q_int(supply)),
+        1 => (fab::solend_reserve(slot, c.deposits, 0, 0, supply, c.decimals), q_int(c.deposits) / q_int(supply)),
+        _ => {
+            let cdi: u128 = 10_000_000_000u128 * c.rate_pm as u128 / 1000;
+            (fab::drift_spot_market(cdi, ts as u64, c.decimals as u32, 1), Q::from_integer(BigInt::from(cdi)) / pow10(10))
+        }
+    };
+    let setup = match c.kind {
+        0 => OracleSetup::KaminoPythPush,
+        1 => OracleSetup::KaminoSwitchboardPull,
+        2 => OracleSetup::SolendPythPull,
+        3 => OracleSetup::SolendSwitchboardPull,
+        4 => OracleSetup::DriftPythPull,
+        _ => OracleSetup::DriftSwitchboardPull,
+    };
+    let k0 = crate::world::kp("c20b_oracle", 2);
+    let k1 = crate::world::kp("c20b_reserve", 2);
+    let bank = fab::pod_bank(setup, &[k0, k1], 100, 0, 0);
+    let mut datas = [oracle.data.clone(), reserve.data.clone()];
+    let owners = [oracle.owner, reserve.owner];
+    let keys: [Pubkey; 2] = [k0, k1];
+    let mut lamports = [1_000_000u64, 1_000_000u64];
+    let legs: Option<(i128, i128)> = {
+        let (d0, d1) = datas.split_at_mut(1);
+        let (l0, l1) = lamports.split_at_mut(1);
+        let ais = vec![
+            AccountInfo::new(&keys[0], false, false, &mut l0[0], &mut d0[0][..], &owners[0], false, 0),
+            AccountInfo::new(&keys[1], false, false, &mut l1[0], &mut d1[0][..], &owners[1], false, 0),
+        ];
+        let ais_ref: &[AccountInfo] = unsafe { std::mem::transmute(&ais[..]) };
+        match catch_unwind(AssertUnwindSafe(|| OraclePriceFeedAdapter::try_from_bank_with_max_age(&bank, ais_ref, &clock, 100))) {
+            Ok(Ok(ad)) => {
+                let rt = catch_unwind(AssertUnwindSafe(|| ad.get_price_of_type(OraclePriceType::RealTime, None, 0)));
+                let tw = catch_unwind(AssertUnwindSafe(|| ad.get_price_of_type(OraclePriceType::TimeWeighted, None, 0)));
+                match (rt, tw) {
+                    (Ok(Ok(a)), Ok(Ok(b))) => Some((a.to_bits(), b.to_bits())),
+                    _ => None,
+                }
+            }
+            _ => None,
+        }
+    };
+    let Some((rt, tw)) = legs else { return Ok(false) }; // failing closed is always allowed
+    let unit = q_one() / pow10(8);
+    let name = ["kamino", "solend", "drift"][venue as usize % 3];
+    for (leg, got, mant) in [("real-time", q_bits(rt), c.price_mant), ("time-weighted", q_bits(tw), ema_mant)] {
+        let want = q_int(mant) * &unit * &rate;
+        let tol = &want * q_ratio(1, 1_000_000) + &unit * q_int(2) + ulp() * q_int(8);
+        if got > &want + &tol {
+            return Err((
+                format!("adapter-leg-exceeds-rate:{leg}:{name}"),
+                format!("{:?}: the {leg} price {} exceeds its feed price {} x exact rate {} = {} (spot mantissa {}, EMA mantissa {})", setup, q_str(&got), q_str(&(q_int(mant) * &unit)), q_str(&rate), q_str(&want), c.price_mant, ema_mant),
+            ));
+        }
+        if got < &want - &tol {
+            return Err((
+                format!("adapter-leg-does-not-follow-its-price:{leg}:{name}"),
+                format!("{:?}: the {leg} price {} is below its feed price {} x exact rate {} = {} beyond the truncation band (spot mantissa {}, EMA mantissa {}): the adjusted price is not a monotone function of this leg's price", setup, q_str(&got), q_str(&(q_int(mant) * &unit)), q_str(&rate), q_str(&want), c.price_mant, ema_mant),
+            ));
+        }
+    }
+    Ok(true)
+}
+
+pub const RULE: &str = "adapter level: the program's own price adapter (try_from_bank_with_max_age + get_price_of_type) for Kamino/Solend x Pyth/Switchboard banks over extreme reserve states: available / borrowed in {0, units, ..., 2^62}, fees up to 100% of liquidity, supplies from 1 to 2^62, decimals 0-19 and 23 (states whose scaled collateral supply is below 2^-38 are skipped: that is the regime of the recorded double-flooring finding): returned price <= price x exact (liquidity/collateral) x (1 + 2^-9) + 4 ulp x price + 2 feed units, never negative; failing closed is always accepted. Staleness stream: Kamino / Solend / Drift x Pyth / Switchboard banks whose venue account was last refreshed 0, 1, 2-100 or up to 10^7 slots (seconds for Drift) before the clock, with and without outstanding borrows / deposits, oracle fresh: any gap >= 1 => the adapter must not return a price. Legs stream: all six venue oracle setups on ordinary fresh reserves / markets (rate 0.3-3.0, i.e. also below par; Pyth EMA = 0.5-2.0 x spot): the real-time price equals spot x exact rate and the time-weighted price equals EMA x exact rate, each within a relative 10^-6 + two feed units - never above, and following its own leg's price. Non-trivial = the exact rate is zero or the liquidity vanishes after decimal scaling while collateral is outstanding.";
 
 pub fn run(ctx: &Ctx) -> Report {
     let cases: u32 = ctx.tier.pick(20_000, 2_000_000);
@@ -323,8 +426,45 @@ pub fn run(ctx: &Ctx) -> Report {
             v["half"] = json!("c20b-stale");
             rep.violation(&sig, m, v);
         }
+        // legs stream
+        let lstrat = legs_strategy();
+        let outcome = run_prop(ctx.seed_bytes("c20b-legs", wi as u64), cases / 4, &lstrat, |c, counting| {
+            let r = run_legs_case(c);
+            if counting {
+                rep.eval();
+                let venue = ["kamino", "solend", "drift"][(c.kind / 2) as usize % 3];
+                if let Ok(p) = &r {
+                    rep.label(&format!("legs-stream:{venue}:{}:{}", if c.kind % 2 == 0 { if c.ema_pm == 1000 { "pyth-ema=spot" } else { "pyth-ema!=spot" } } else { "swb" }, if *p { "priced" } else { "refused" }));
+                    if *p && c.kind % 2 == 0 && c.ema_pm != 1000 {
+                        rep.nontrivial_case(&json!({"legs": c.kind, "e": c.ema_pm / 100, "r": c.rate_pm / 250, "d": c.decimals}));
+                    }
+                }
+            }
+            r.map(|_| ()).map_err(|(s, m)| format!("{s}|{m}"))
+        });
+        if let Some((c, msg)) = outcome.failure {
+            let (sig, m) = msg.split_once('|').map(|(a, b)| (a.to_string(), b.to_string())).unwrap_or((msg.clone(), msg.clone()));
+            let mut v = serde_json::to_value(&c).unwrap();
+            v["half"] = json!("c20b-legs");
+            rep.violation(&sig, m, v);
+        }
         rep
     })
+}
+
+pub fn replay_legs(_ctx: &Ctx, case: &Value) -> Report {
+    let mut rep = Report::new(RULE);
+    rep.nontrivial_floor = 0;
+    match serde_json::from_value::<LCase>(case.clone()) {
+        Ok(c) => {
+            rep.eval();
+            if let Err((sig, msg)) = run_legs_case(&c) {
+                rep.violation(&sig, msg, case.clone());
+            }
+        }
+        Err(e) => rep.engine_errors.push(format!("bad replay: {e}")),
+    }
+    rep
 }
 
 pub fn replay(_ctx: &Ctx, case: &Value) -> Report {
